@@ -28,7 +28,15 @@ PREFIX_C = [
     {'op': 'suggest', 'client': 'w2', 'count': 1, 'alg': {'kind': 'ok', 'sugg': [{'params': 2, 'md': []}], 'delta': []}},
     {'op': 'addMeasurement', 'id': 1, 'm': [5, True]},
 ]   # trials: 1 ACTIVE w1 (one measurement), 2 ACTIVE w2
-PREFIXES = {'A': PREFIX_A, 'B': PREFIX_B, 'C': PREFIX_C}
+_DONE = lambda p: {'state': 'SUCCEEDED', 'params': p, 'meas': [], 'final': [p, True], 'md': []}
+PREFIX_D = [
+    {'op': 'createStudy', 'display': 's', 'state': 'ACTIVE'},
+    {'op': 'createStudy', 'display': 't', 'state': 'ACTIVE'},
+    {'op': 'createTrial', 'trial': _DONE(1)}, {'op': 'createTrial', 'trial': _DONE(2)},
+    {'op': 'createTrial', 'sid': 't', 'trial': _DONE(11)}, {'op': 'createTrial', 'sid': 't', 'trial': _DONE(12)},
+    {'op': 'createTrial', 'sid': 't', 'trial': _DONE(13)}, {'op': 'createTrial', 'sid': 't', 'trial': _DONE(14)},
+]   # TWO studies of one owner with 2 and 4 completed trials, no algorithm state yet: their first suggestions are independent
+PREFIXES = {'A': PREFIX_A, 'B': PREFIX_B, 'C': PREFIX_C, 'D': PREFIX_D}
 
 
 def S(n, base, delta=None):
@@ -69,6 +77,10 @@ REQS = {
     'mdStudyAlias': ('UpdateMetadata', {'op': 'updateMetadata', 'sid': 's/', 'us': [{'t': None, 'kv': ['', 'k', 'a']}]}),
     'createTrialAlias': ('CreateTrial', {'op': 'createTrial', 'sid': 's/', 'trial': {'state': 'REQUESTED', 'params': 52, 'meas': [], 'final': None, 'md': []}}),
     'setInactiveAlias': ('SetStudyState', {'op': 'setStudyState', 'sid': 's/', 'state': 'INACTIVE'}),
+    # another study of the same owner (prefix D): RPCs on different studies take different locks, so anything they
+    # share inside the process (a policy's loader, a cache) is exposed to every interleaving
+    'suggestOnT': ('SuggestTrials', {'op': 'suggest', 'sid': 't', 'client': 'w7', 'count': 1, 'alg': S(1, 600)}),
+    'createTrialOnT': ('CreateTrial', {'op': 'createTrial', 'sid': 't', 'trial': {'state': 'REQUESTED', 'params': 53, 'meas': [], 'final': None, 'md': []}}),
     'earlyStop1': ('CheckTrialEarlyStoppingState', {'op': 'checkEarlyStop', 'id': 1, 'es': {'kind': 'ok', 'decisions': [[1, True]], 'delta': []}}),
 }
 
@@ -265,10 +277,12 @@ def local_servicer_stage(c):
 
 
 def pairs_for(tier, rng):
-  names = [n for n in REQS if not n.endswith('Alias')]       # alias-name templates: directed pairs only (run)
+  names = [n for n in REQS if not n.endswith('Alias') and not n.endswith('OnT')]       # alias-name templates: directed pairs only (run)
   allpairs = [(a, b) for i, a in enumerate(names) for b in names[i:]]
   tasks = []
   for pname in PREFIXES:
+    if pname == 'D':
+      continue            # the two-study prefix: directed pairs only (run)
     for a, b in allpairs:
       # requests on trial 1/2 need the prefix with those trials
       needs_trials = any(x in (a, b) for x in ('mdMissing', 'suggestPool', 'mdTrial3', 'delete3', 'mdStudyK0', 'complete1', 'complete1inf', 'complete2', 'measure1', 'measure1b', 'stop1', 'delete1', 'mdTrial1', 'mdBoth', 'earlyStop1', 'suggestOwn', 'suggestMd'))
@@ -311,8 +325,13 @@ def run(c):
                   ('suggestOwn', 'mdBoth'), ('suggestNew', 'createTrial2'), ('suggestNew', 'setInactive'), ('suggestNew', 'delete1'),
                   ('suggestNew', 'mdMissing'), ('suggestPool', 'complete2'), ('suggestNew', 'mdStudyK0'), ('suggestPool', 'mdTrial3')]
   if c.tier == 'thorough':
-    hosted_pairs += [(a, b) for a in ('suggestNew', 'suggestOwn', 'suggestPool', 'suggestMd') for b in REQS if (a, b) not in hosted_pairs and b not in ('earlyStop1',) and not b.endswith('Alias')]
+    hosted_pairs += [(a, b) for a in ('suggestNew', 'suggestOwn', 'suggestPool', 'suggestMd') for b in REQS if (a, b) not in hosted_pairs and b not in ('earlyStop1',) and not b.endswith('Alias') and not b.endswith('OnT')]
   jobs += [('hosted:ram', 'A', a, b, limit) for a, b in hosted_pairs]
+  # two studies, hosted: the real policy objects of both studies run in one process
+  jobs += [('hosted:ram', 'D', 'suggestNew', 'suggestOnT', limit), ('hosted:ram', 'D', 'suggestNew', 'createTrialOnT', limit),
+           ('ram', 'D', 'suggestNew', 'suggestOnT', limit)]
+  if c.tier == 'thorough':
+    jobs += [('hosted:sqlmem', 'D', 'suggestNew', 'suggestOnT', limit)]
   alias_pairs = [('setInactiveAlias', 'mdStudy'), ('createTrialAlias', 'createTrial'), ('mdStudyAlias', 'setInactive'),
                  ('mdStudyAlias', 'mdStudyK0'), ('createTrialAlias', 'suggestNew'), ('setInactiveAlias', 'complete1')]
   jobs += [(be, 'A', a, b, limit) for be in backends for a, b in alias_pairs]
